@@ -227,6 +227,9 @@ def build(program):
                 kw['_out_header'] = tuple(hs)
             if m.get('throws'):
                 kw['_throws'] = [b.faults[x] for x in m['throws']]
+            if m.get('patterns'):
+                from spyne.protocol.http import HttpPattern
+                kw['_patterns'] = [HttpPattern(p.get('address'), verb=p.get('verb'), host=p.get('host')) for p in m['patterns']]
             if m.get('evmgr'):
                 from spyne.evmgr import EventManager
                 em = EventManager(None)
